@@ -482,6 +482,9 @@ structure LCfg where
   srcKeys : List (Nat × Action)
   rows : Nat := 2
   cols : Nat := 767
+  /-- behaviour of the pinned commit, before the `fix:` commits (used only by counterexample theorems) -/
+  pinnedRepeat : Bool := false
+  pinnedLayerStack : Bool := false
   deriving Repr, Inhabited
 
 structure Layout where
@@ -537,7 +540,8 @@ refused silently) -/
 def Layout.transOrder (s : Layout) : Except Crash (List Nat) :=
   let cur := s.currentLayer
   if s.transV2 then
-    let held := s.activeHeldLayers
+    -- before the `fix:` commit every held layer was collected and a 13th one panicked
+    let held := if s.cfg.pinnedLayerStack then s.activeHeldLayers else s.activeHeldLayers.take MAX_ACTIVE_LAYERS
     if held.length > MAX_ACTIVE_LAYERS then .error .layerStackOverflow
     else
       let v := pushCap MAX_ACTIVE_LAYERS held s.defaultLayer
@@ -772,9 +776,15 @@ mutual
       | .repeat =>
         match s.rptAction with
         | some ac =>
-          match doAction fuel s ac coord delay isOneshot [] with
-          | .error c => .error c
-          | .ok r => .ok (r.1, .noEvent)
+          if s.cfg.pinnedRepeat then
+            -- before the `fix:` commit the saved action stayed in place while it ran
+            match doAction fuel s ac coord delay isOneshot [] with
+            | .error c => .error c
+            | .ok r => .ok (r.1, .noEvent)
+          else
+            match doAction fuel { s with rptAction := none } ac coord delay isOneshot [] with
+            | .error c => .error c
+            | .ok r => .ok (if r.1.rptAction.isNone then { r.1 with rptAction := some ac } else r.1, .noEvent)
         | none => .ok (s, .noEvent)
       | .holdTap timeout hold tap timeoutAction config tapHoldInterval =>
         if tapHoldInterval == 0 || coord != s.lptCoord || s.lptTapHoldTimeout == 0 then
